@@ -10,7 +10,9 @@ case "$P" in
   revert:*) git show -R "${P#revert:}" -- . ':!*_test.go' | git apply || { echo "cannot revert" >&2; exit 2; } ;;
   *) git apply "$P" || { echo "cannot apply $P" >&2; exit 2; } ;;
 esac
-OUT=$(cd /verif && timeout ${TRY_TIMEOUT:-1500} ./run.sh "$PROP" "$TIER" 2>&1); RC=$?
+TO=$(mktemp -d /tmp/tryout.XXXXXX)
+OUT=$(cd /verif && VERIF_OUT="$TO" timeout ${TRY_TIMEOUT:-1500} ./run.sh "$PROP" "$TIER" 2>&1); RC=$?
+rm -rf "$TO"
 git -C /repo checkout -- . ; git -C /repo clean -fdq
 echo "$OUT" | grep -v '^VIOLATION' | head -${LINES_SHOWN:-6}
 echo "$OUT" | grep -c '^VIOLATION' | sed 's/^/violation lines: /'
